@@ -181,22 +181,44 @@ def model_exe():
     return os.path.join(LEAN, ".lake", "build", "bin", "llbuild-model")
 
 
-def scan_forbidden():
-    """grep the Lean sources for tokens that would weaken the trusted base; comments are discarded."""
-    hits = []
-    for dp, dn, fn in os.walk(LEAN):
-        if ".lake" in dp:
+def import_closure(modules):
+    """Lean source files of the LLBuild modules reachable from `modules` (plus Driver.lean's closure)."""
+    seen, todo = set(), list(modules)
+    files = []
+    while todo:
+        m = todo.pop()
+        if m in seen:
             continue
-        for f in fn:
-            if not f.endswith(".lean"):
+        seen.add(m)
+        path = os.path.join(LEAN, m.replace(".", "/") + ".lean")
+        if not os.path.exists(path):
+            continue
+        files.append(path)
+        for line in open(path):
+            mm = re.match(r"\s*import\s+(LLBuild[\w.]*|Driver)\s*$", line)
+            if mm:
+                todo.append(mm.group(1))
+    return files
+
+
+def scan_forbidden(modules=None):
+    """grep the Lean sources this property depends on (its module's import closure and the driver's)
+    for tokens that would weaken the trusted base; comments are discarded."""
+    hits = []
+    files = import_closure(list(modules or []) + ["Driver"]) if modules else None
+    if files is None:
+        files = []
+        for dp, dn, fn in os.walk(LEAN):
+            if ".lake" in dp:
                 continue
-            p = os.path.join(dp, f)
-            txt = open(p).read()
-            txt = re.sub(r"/-.*?-/", lambda m: "\n" * m.group(0).count("\n"), txt, flags=re.S)
-            for i, line in enumerate(txt.split("\n"), 1):
-                line = line.split("--")[0]
-                if FORBIDDEN.search(line):
-                    hits.append("%s:%d: %s" % (os.path.relpath(p, VERIF), i, line.strip()))
+            files += [os.path.join(dp, f) for f in fn if f.endswith(".lean")]
+    for p in files:
+        txt = open(p).read()
+        txt = re.sub(r"/-.*?-/", lambda m: "\n" * m.group(0).count("\n"), txt, flags=re.S)
+        for i, line in enumerate(txt.split("\n"), 1):
+            line = line.split("--")[0]
+            if FORBIDDEN.search(line):
+                hits.append("%s:%d: %s" % (os.path.relpath(p, VERIF), i, line.strip()))
     return hits
 
 
